@@ -126,6 +126,18 @@ def matrix(kind, tier, seed):
             M.append(_c("Auer", "VVD3a", eps=1.0, empirical=True, script=dict(kind="auer", G=3), max_steps=25))
             if rep == 0:   # pinned history: widths differ per design and a discard precedes the Pareto decision (finding F6)
                 M.append(_c("Auer", "VVD2a", eps=1.0, empirical=True, script=dict(kind="auer", G=4), max_steps=25, seed=10))
+            # cones the symmetric ones cannot stand in for: a square matrix that is NOT symmetric (a transposed product goes unnoticed on a
+            # symmetric one), more facets than objectives with ellipsoidal regions, facets with different alpha
+            NS, K3I, UA = [[3, -1], [-2, 3]], [[1, 1], [1, 0], [0, 1]], [[1, 0], [-1, 1]]       # K3I: the redundant facet FIRST, so that dropping trailing facets matters
+            for e in (0.5, 1.0):
+                M.append(_c("VOGP", "VVD2a", order=("Wint", NS), eps=e, script=dict(kind="rect", G=4), max_steps=25))
+                M.append(_c("PaVeBaGP", "VVD2a", order=("Wint", NS), eps=e, type="IH", script=dict(kind="rect", G=4), max_steps=25))
+                M.append(_c("PaVeBaPartialGP", "VVD2a", order=("Wint", NS), eps=e, script=dict(kind="rect", G=4), max_steps=30))
+                M.append(_c("PaVeBa", "VVD2a", order=("Wint", K3I), eps=e, script=dict(kind="ball", G=4), max_steps=25))
+                M.append(_c("PaVeBaGP", "VVD2a", order=("Wint", K3I), eps=e, type="DE", script=dict(kind="ell", G=4), max_steps=12))
+                M.append(_c("PaVeBaGP", "VVD2a", order=("W", UA), eps=e, type="DE", script=dict(kind="ell", G=4), max_steps=12))
+                M.append(_c("PaVeBaPartialGP", "VVD2a", order=("W", UA), eps=e, confidence_type="hyperellipsoid", script=dict(kind="ell", G=4), max_steps=10))
+                M.append(_c("VOGP", "VVD3a", order=("cone3d", "acute"), eps=e, script=dict(kind="rect", G=3), max_steps=20))
             M.append(_c("VOGP", "VVD2tiny", order=("Wint", WI["orth"]), eps=1.0, script=dict(kind="rect", G=2), max_steps=25))
             M.append(_c("PaVeBaGP", "VVD2tiny", order=("Wint", WI["acute"]), eps=0.0, type="IH", script=dict(kind="rect", G=2), max_steps=25))
             # batches larger than one on scripted posteriors: late-run states with few candidates and a non-empty P
@@ -188,6 +200,8 @@ def matrix(kind, tier, seed):
             e = (0.5, 1.0, 2.0)[(k // 3) % 3]
             M.append(_c("PaVeBaGP", "VVD2a", order=o, eps=e, type="IH", batch=b, script=dict(kind="rect", G=4), max_steps=20))
             M.append(_c("PaVeBaPartialGP", "VVD2a", order=o, eps=e, batch=b, costs=[1, 2], budget=60, script=dict(kind="rect", G=4), max_steps=20))
+            if k < 6:      # correlated posteriors: total variance is the TRACE of the covariance, whatever its off-diagonal entries
+                M.append(_c("PaVeBaGP", "VVD2a", order=o, eps=e, type="DE", batch=b, script=dict(kind="ell", G=4), max_steps=8))
             if k < 8:
                 M.append(_c("VOGP", "VVD2a", order=o, eps=e, batch=b, script=dict(kind="rect", G=4), max_steps=20))
                 M.append(_c("EpsilonPAL", "VVD2a", eps=e, batch=b, script=dict(kind="rect", G=4), max_steps=20))
@@ -244,6 +258,9 @@ def accuracy_matrix(prop, tier, seed):
                 M.append(_c("PaVeBaPartialGP", "VVD2a", order=("Wint", WI["orth"]), eps=e, script=dict(kind="rect", G=4), max_steps=60))
                 M.append(_c("PaVeBaGP", "VVD2a", order=("Wint", WI["obtuse"]), eps=e, type="DE", script=dict(kind="ell", G=4), max_steps=40))
                 M.append(_c("PaVeBaPartialGP", "VVD2a", order=("Wint", WI["acute"]), eps=e, confidence_type="hyperellipsoid", script=dict(kind="ell", G=4), max_steps=40))
+                # facets with different alpha (unit rows (1,0) and (-1,1)/sqrt 2): each facet has its own eps-slack
+                M.append(_c("PaVeBaGP", "VVD2a", order=("W", [[1, 0], [-1, 1]]), eps=e, type="DE", script=dict(kind="ell", G=4), max_steps=40))
+                M.append(_c("PaVeBaPartialGP", "VVD2a", order=("W", [[1, 0], [-1, 1]]), eps=e, confidence_type="hyperellipsoid", script=dict(kind="ell", G=4), max_steps=40))
                 M.append(_c("Auer", "VVD2a", eps=e, empirical=False, script=dict(kind="auer", G=4, iso=True), max_steps=60))
                 M.append(_c("Auer", "VVD3a", eps=e, empirical=False, script=dict(kind="auer", G=3, iso=True), max_steps=60))
                 M.append(_c("Auer", "VVD2a", eps=e, empirical=True, script=dict(kind="auer", G=4), max_steps=60))
@@ -322,6 +339,14 @@ def accuracy_runs(ctx, prop):
             ctx.violation("not-remodelled|%s|%s" % (c["alg"], c.get("type") or c.get("confidence_type") or c["script"]["kind"]),
                           {"cfg": c, "step": l, "pre": T["steps"][l - 1]["pre"]},
                           "%s step %d: a design that was active when the round was modelled does not display this round's posterior (%s)" % (c["alg"], l, c))
+        for cl in failing:
+            if cl in ("disc", "newp", "useful", "pess"):
+                # the accuracy argument is "the step operators imply accuracy (TLC, tlapm)" + "the code's steps are the step operators":
+                # a run of THIS check whose step deviates from the operators removes the second premise
+                step = T["steps"][l - 1]
+                ctx.violation("premise-" + sig_for(T, cl), {"cfg": c, "step": l, "clause": cl, "pre": step["pre"], "post": step["post"], "rel": step["rel"], "amb": step["amb"]},
+                              "%s step %d of an accuracy run does not follow the specification's decision rule (clause %s): pre=%s post=%s (%s)" % (
+                                  c["alg"], l, cl, step["pre"], step["post"], c))
         if "accurate" not in failing:
             continue
         if "order" not in c:
